@@ -123,6 +123,38 @@ def congruence_facts(eng, formulas, hyps):
         return []
     found = _apps(formulas, ["SumF", "ProdF"])
     facts = []
+    # R4 (split): a reduction over an extent that is a sum n1 + ... + nk (each part >= 0 under the hypotheses) is the
+    # combination of the reductions over the parts; a reduction over the extent 1 is its single element.
+    split_facts = []
+    for nm, F in (("SumF", SumF), ("ProdF", ProdF)):
+        for t in list({t.get_id(): t for t in found[nm] if _ground(t)}.values()):
+            n, arr = t.arg(0), t.arg(1)
+            parts = getattr(eng, "extent_parts", {}).get(n.get_id()) or (list(n.children()) if z3.is_add(n) else None)
+            if parts and 2 <= len(parts) <= 10:
+                s = z3.Solver()
+                s.set("timeout", 2000)
+                s.add(*hyps)
+                s.add(z3.Not(z3.And(*[p >= 0 for p in parts])))
+                if s.check() != z3.unsat:
+                    continue
+                off, pieces = z3.IntVal(0), []
+                for k, p in enumerate(parts):
+                    j = z3.Int(f"sp!{t.get_id()}!{k}")
+                    sub = z3.Lambda([j], z3.Select(arr, z3.simplify(off) + j))
+                    if z3.is_int_value(p) and p.as_long() == 1:
+                        pieces.append(z3.Select(arr, z3.simplify(off)))
+                    else:
+                        pieces.append(F(p, sub))
+                    off = off + p
+                comb = pieces[0]
+                for x in pieces[1:]:
+                    comb = comb + x if nm == "SumF" else comb * x
+                split_facts.append(t == comb)
+            elif z3.is_int_value(n) and n.as_long() == 1:
+                split_facts.append(t == z3.Select(arr, z3.IntVal(0)))
+    if split_facts:
+        facts.extend(split_facts)
+        found = _apps(list(formulas) + split_facts, ["SumF", "ProdF"])
     for nm in ("SumF", "ProdF"):
         terms = list({t.get_id(): t for t in found[nm] if _ground(t)}.values())
         terms.sort(key=lambda t: len(t.sexpr()))
@@ -132,6 +164,8 @@ def congruence_facts(eng, formulas, hyps):
                 if t1.eq(t2):
                     continue
                 n1, n2 = t1.arg(0), t2.arg(0)
+                if not n1.eq(n2) and not z3.is_true(z3.simplify(n1 == n2)):
+                    continue            # different extents: no congruence (keeps the pass linear in practice)
                 j = z3.Int(f"cg!{t1.get_id()}!{t2.get_id()}")
                 s = z3.Solver()
                 s.set("timeout", 3000)
@@ -377,6 +411,12 @@ def discharge(eng, name, hyps, goal, meta=None, timeout_ms=None):
                 return Result(name, "proved", "z3-abstraction", time.time() - t0, meta=_meta_out(meta))
         except z3.Z3Exception:
             pass
+    if cg and meta.get("kind") not in ("canary",):
+        try:
+            if reduction_abstraction(list(hyps), ax, cg, goal, 5000):
+                return Result(name, "proved", "z3-reduction-abstraction", time.time() - t0, meta=_meta_out(meta))
+        except z3.Z3Exception:
+            pass
     s.set("timeout", min(timeout_ms or Z3_TIMEOUT_MS, 4000))
     r = s.check()
     if r == z3.unknown and not heavy_present:
@@ -388,6 +428,13 @@ def discharge(eng, name, hyps, goal, meta=None, timeout_ms=None):
             pass
         s.set("timeout", timeout_ms or Z3_TIMEOUT_MS)
         r = s.check()
+    if r == z3.unknown and cg:
+        # reductions as opaque reals: with the congruence / split facts in place the remaining goal is plain arithmetic over them
+        try:
+            if reduction_abstraction(list(hyps), ax, cg, goal, timeout_ms or Z3_TIMEOUT_MS):
+                return Result(name, "proved", "z3-reduction-abstraction", time.time() - t0, meta=_meta_out(meta))
+        except z3.Z3Exception:
+            pass
     dt = time.time() - t0
     if r == z3.unsat:
         return Result(name, "proved", "z3", dt, meta=_meta_out(meta))
@@ -407,6 +454,22 @@ def discharge(eng, name, hyps, goal, meta=None, timeout_ms=None):
     if r2 == "sat":
         return Result(name, "refuted", "cvc5", dt, model=None, detail=out[:2000], meta=_meta_out(meta))
     return Result(name, "unknown", "z3+cvc5", dt, detail=f"z3: {s.reason_unknown()}; cvc5: {out[:300]}", meta=_meta_out(meta))
+
+
+def reduction_abstraction(hyps, ax, cg, goal, timeout_ms):
+    """sound strengthening of the query: every ground SumF / ProdF term becomes a fresh real constant (same term -> same
+    constant), selections from lambdas are beta-reduced; unsat of the abstracted query implies unsat of the original"""
+    fs = [z3.simplify(f) for f in list(hyps) + list(ax) + list(cg) + [z3.Not(goal)]]
+    found = _apps(fs, ["SumF", "ProdF"])
+    terms = sorted({t.get_id(): t for nm in ("SumF", "ProdF") for t in found[nm] if _ground(t)}.values(), key=lambda t: -len(t.sexpr()))
+    subs = [(t, z3.Real(f"red!abs!{k}")) for k, t in enumerate(terms)]
+    if not subs:
+        return False
+    fs = [z3.simplify(z3.substitute(f, *subs)) for f in fs]
+    s = z3.Solver()
+    s.set("timeout", min(timeout_ms, 20000))
+    s.add(*fs)
+    return s.check() == z3.unsat
 
 
 def run_cvc5(smt2, tlimit_s):
